@@ -1,6 +1,6 @@
 (* Correspondence for C13 (uamiv): Memmap reader vs record reader on the same reference-encoded file,
    plus the translated seek arithmetic against the offsets at which the library actually seeks. *)
-From PNC Require Export Base.Util Base.Words Gen.Camx Model.Uamiv Model.One3d.
+From PNC Require Export Base.Util Base.Words Gen.Camx Model.Uamiv Model.One3d Model.TempHp.
 From PNC Require Import Corr.C09.
 Local Open Scope Z_scope.
 
@@ -92,12 +92,94 @@ Definition oregion13 (c : ocase13) : nat :=
   if Z.of_nat (length ds) <? 2 then 11%nat
   else if existsb (fun p => negb (fst p / 1000 =? snd p / 1000)) (combine ds (tl ds)) then 13%nat else 0%nat.
 
+(* ---- temperature: Memmap reader vs record reader ------------------------------------------------------ *)
+Record tcase13 := TCase13 {
+  t13_c : temperature; t13_hhmm : list Z; t13_ref : list word;
+  t13_mm_ok : bool; t13_mm : tview; t13_rd_ok : bool; t13_rd : tview; t13_rd_timeout : bool;
+  t13_self_ok : bool; t13_self : tr_self                     (* the record reader's fields as it computed them *)
+}.
+Definition tr_self_eqb (a b : tr_self) : bool :=
+  (trs_nlayers a =? trs_nlayers b) && (trs_time_step a =? trs_time_step b) && (trs_count a =? trs_count b)
+  && (trs_area_padded a =? trs_area_padded b) && (trs_padded a =? trs_padded b).
+Definition t_rec_stamps (c : temperature) (hhmm : list Z) : list (Z * Z) :=
+  flat_map (fun p => repeat (ts_date (fst p), snd p) (S (length (ts_air (fst p))))) (combine (t_steps c) hhmm).
+(* F: Memmap model predicts the library; hand-modelled probing predicts the record reader's fields; the SURFTEMP /
+   AIRTEMP it presents are the words at the positions generated from the TRANSLATED start and increment *)
+Definition tcheckF13 (c : tcase13) : bool :=
+  let size := 4 * Z.of_nat (length (t13_ref c)) in
+  let ncell := t_nx (t13_c c) * t_ny (t13_c c) in
+  zlist_eqb (t_enc (t13_c c)) (t13_ref c)
+  && match t_mm_read (t_ny (t13_c c)) (t_nx (t13_c c)) (t13_ref c) size with
+     | Ok v => t13_mm_ok c && tview_eqb v (t13_mm c)
+     | Err => negb (t13_mm_ok c)
+     end
+  && match tr_probe (nth 0 (t13_ref c) 0) (t_rec_stamps (t13_c c) (t13_hhmm c)) with
+     | Some s => t13_self_ok c && tr_self_eqb s (t13_self c)
+     | None => negb (t13_self_ok c)
+     end
+  && (negb (t13_rd_ok c)
+      || (let s := t13_self c in let fuel := S (length (t13_ref c)) in let cnt := Z.to_nat (trs_count s) in
+          (* out = zeros((TSTEP, ...)); out[i] = v for every yielded position (IndexError beyond TSTEP) *)
+          let pad := fun (A : Type) (l : list A) (z : A) => l ++ repeat z (cnt - length l) in
+          let zc := repeat 0 (Z.to_nat ncell) in
+          let sp := tr_surf_positions s fuel size in let ap := tr_air_positions s fuel size in
+          (length sp <=? cnt)%nat && (length ap <=? cnt)%nat
+          && zll_eqb (pad _ (map (fun pos => words_at (t13_ref c) pos ncell) sp) zc) (tv_surf (t13_rd c))
+          && zlll_eqb (pad _ (map (fun pos => air_at (t13_ref c) pos ncell (trs_nlayers s)) ap) (repeat zc (Z.to_nat (trs_nlayers s))))
+                      (tv_air (t13_rd c)))).
+Definition tcheckS13 (c : tcase13) : bool :=
+  negb (t13_rd_timeout c) && (if t13_mm_ok c && t13_rd_ok c then tview_eqb (t13_mm c) (t13_rd c) else true).
+Definition year_cross (ds : list Z) : bool := existsb (fun p => negb (fst p / 1000 =? snd p / 1000)) (combine ds (tl ds)).
+Definition tregion13 (c : tcase13) : nat :=
+  let ds := map ts_date (t_steps (t13_c c)) in
+  if Z.of_nat (length ds) <? 2 then 11%nat else if year_cross ds then 13%nat else 0%nat.
+
+(* ---- height_pressure ----------------------------------------------------------------------------------- *)
+Record hcase13 := HCase13 {
+  h13_c : heightpres; h13_hhmm : list Z; h13_ref : list word;
+  h13_mm_ok : bool; h13_mm : hview; h13_rd_ok : bool; h13_rd : hview; h13_rd_timeout : bool;
+  h13_self_ok : bool; h13_self : hpr_self; h13_count : Z;
+  h13_seeks : list (Z * Z * Z * Z * Z)        (* (date, time, k, hp, byte position): getArray(0) then getArray(1) *)
+}.
+Definition hpr_self_eqb (a b : hpr_self) : bool :=
+  (hpr_start_date a =? hpr_start_date b) && (hpr_start_time a =? hpr_start_time b)
+  && (hpr_time_step a =? hpr_time_step b) && (hpr_nlayers a =? hpr_nlayers b)
+  && (hpr_padded_size a =? hpr_padded_size b) && (hpr_data_start_byte a =? hpr_data_start_byte b).
+Definition h_rec_stamps (c : heightpres) (hhmm : list Z) : list (Z * Z) :=
+  flat_map (fun p => repeat (hs_date (fst p), snd p) (2 * length (hs_hp (fst p)))) (combine (h_steps c) hhmm).
+Definition hseek_ok (s : hpr_self) (ws : list word) (ncell : Z) (x : (Z * Z * Z * Z * Z) * list word) : bool :=
+  let '((d, t, k, hp, pos), cells) := x in
+  (hpr_recordposition s d t k hp =? pos) && zlist_eqb (cells_at ws pos ncell) cells.
+Definition hcheckF13 (c : hcase13) : bool :=
+  let size := 4 * Z.of_nat (length (h13_ref c)) in
+  zlist_eqb (h_enc (h13_c c)) (h13_ref c)
+  && match h_mm_read (h_ny (h13_c c)) (h_nx (h13_c c)) (h13_ref c) size with
+     | Ok v => h13_mm_ok c && hview_eqb v (h13_mm c)
+     | Err => negb (h13_mm_ok c)
+     end
+  && match hpr_probe (nth 0 (h13_ref c) 0) (h_rec_stamps (h13_c c) (h13_hhmm c)) with
+     | Some s => h13_self_ok c && hpr_self_eqb s (h13_self c)
+                 && match hpr_step_count s size with Some n => n =? h13_count c | None => true end
+     | None => negb (h13_self_ok c)
+     end
+  && forallb (hseek_ok (h13_self c) (h13_ref c) (h_nx (h13_c c) * h_ny (h13_c c)))
+             (combine (h13_seeks c) (concat (hv_hght (h13_rd c)) ++ concat (hv_pres (h13_rd c)))).
+Definition hcheckS13 (c : hcase13) : bool :=
+  negb (h13_rd_timeout c) && (if h13_mm_ok c && h13_rd_ok c then hview_eqb (h13_mm c) (h13_rd c) else true).
+Definition hregion13 (c : hcase13) : nat :=
+  let ds := map hs_date (h_steps (h13_c c)) in
+  if Z.of_nat (length ds) <? 2 then 11%nat else if year_cross ds then 13%nat else 0%nat.
+
 Inductive case_t :=
 | UC (c : ucase13)
-| OC (c : ocase13).
+| OC (c : ocase13)
+| TC (c : tcase13)
+| HC (c : hcase13).
 
 Definition check (c : case_t) : verdict :=
   match c with
   | UC c => (checkF c, checkS c, region c)
   | OC c => (ocheckF13 c, ocheckS13 c, oregion13 c)
+  | TC c => (tcheckF13 c, tcheckS13 c, tregion13 c)
+  | HC c => (hcheckF13 c, hcheckS13 c, hregion13 c)
   end.
